@@ -47,6 +47,10 @@ def run(tier, seed):
     if cluster:
         cluster.judge(rep, PID, tier, 0, args={"scenarios": True, "seed": 0}, what="directed schedules, in situ")
         cluster.judge(rep, PID, tier, seed, what="random adversarial schedules, in situ")
+    # the real two-goroutine runtime: the height the filter classifies by is the height of the installed term
+    from props import runtime
+    rep.assumptions += runtime.ASSUME
+    runtime.judge(rep, PID, tier, seed)
     return rep.finish()
 
 
@@ -56,7 +60,10 @@ def replay(path, seed):
     payload = json.load(open(path))
     wd = vlib.scratch_dir("c17r")
     try:
-        if payload.get("kind") == "filter-path":
+        if payload.get("kind") == "runtime-run":
+            from props import runtime
+            runtime.replay(rep, payload, seed)
+        elif payload.get("kind") == "filter-path":
             unit(rep, "quick", seed, replay_in=trees.replay_path(payload, wd))
         else:
             from props import cluster
